@@ -77,6 +77,14 @@ def asLeaf : Node → Go.Res Leaf
 def asList? : Node → Option DList
   | .list l => some l
   | _ => none
+/-- `c, ok := n.(dom.Container)` -/
+def asContainer? : Node → Option Container
+  | .cont c => some c
+  | _ => none
+/-- `l, ok := n.(dom.Leaf)` -/
+def asLeaf? : Node → Option Leaf
+  | .leaf s => some s
+  | _ => none
 
 /-- a method call on a possibly-nil interface value: nil receiver panics -/
 def nonNil {α : Type} (n : Option α) : Go.Res α := Go.deref n
@@ -175,6 +183,15 @@ def splitOnChar (sep : Char) : List Char → List (List Char)
 
 /-- `strings.Split(s, sep)` for a constant one-character separator (the translator rejects any other) -/
 def stringsSplit1 (s : String) (sep : Char) : List String := (splitOnChar sep s.toList).map String.ofList
+
+/-- the package-level regexp `\[\d+]$` (listPathRe): `MatchString(s)` — the text ends with `[`, one or more ASCII
+    digits, `]` (the model's `stripIdx` recognises exactly this group) -/
+def reIdxSuffix (s : String) : Bool := (stripIdx s.toList).isSome
+/-- `listPathRe.FindStringIndex(s)`: nil, or [start, end] of that trailing group (end = len(s), in characters) -/
+def reIdxSuffixFind (s : String) : List Int :=
+  match stripIdx s.toList with
+  | some (p, _) => [(p.length : Int), (s.toList.length : Int)]
+  | none => []
 
 /-! ## numbers -/
 
